@@ -186,7 +186,7 @@ func MarshalOrdered(m *orderedmap.OrderedMap[string, any]) ([]byte, error) {
 					}
 					buf.Write(valBytes)
 				default:
-					valBytes, err := json.Marshal(vv)
+					valBytes, err := marshalOrderedValue(vv)
 					if err != nil {
 						return nil, err
 					}
@@ -204,6 +204,32 @@ func MarshalOrdered(m *orderedmap.OrderedMap[string, any]) ([]byte, error) {
 	}
 	buf.WriteByte('}')
 	return buf.Bytes(), nil
+}
+
+// marshalOrderedValue serialises any value found inside an array, recursing into
+// nested arrays and ordered maps so that their structure is preserved.
+func marshalOrderedValue(v any) ([]byte, error) {
+	switch t := v.(type) {
+	case *orderedmap.OrderedMap[string, any]:
+		return MarshalOrdered(t)
+	case []any:
+		var buf bytes.Buffer
+		buf.WriteByte('[')
+		for i, item := range t {
+			if i > 0 {
+				buf.WriteByte(',')
+			}
+			valBytes, err := marshalOrderedValue(item)
+			if err != nil {
+				return nil, err
+			}
+			buf.Write(valBytes)
+		}
+		buf.WriteByte(']')
+		return buf.Bytes(), nil
+	default:
+		return json.Marshal(v)
+	}
 }
 
 func FileExists(filename string) bool {
